@@ -1,1 +1,25 @@
-// hooks for src/metainfo.rs
+// hooks for src/metainfo.rs (private fields of Metainfo)
+#![allow(dead_code, unused_imports)]
+use super::*;
+
+#[cfg(kani)]
+mod kani_harnesses {
+    use super::*;
+    // META/Metainfo::total_length (assumed in Verus: Iterator::sum): BOUNDED (<= 3 files): the sum of the lengths when it
+    // fits u64 (what Metainfo::parse guarantees through total_length_fits)  (C03, C17)
+    #[kani::proof]
+    #[kani::unwind(5)]
+    fn kani_total_length_3() {
+        let n: usize = kani::any();
+        kani::assume(n <= 3);
+        let ls: [u64; 3] = kani::any();
+        let mut files = vec![];
+        let mut i = 0;
+        let mut sum: u128 = 0;
+        while i < n { files.push(File { length: ls[i], path: String::new() }); sum += ls[i] as u128; i += 1; }
+        kani::assume(sum <= u64::MAX as u128);
+        assert!(Metainfo::total_length_fits(&files));
+        let m = Metainfo { announce: String::new(), name: String::new(), piece_length: 1, pieces: vec![], files, info_hash: [0; HASH_SIZE] };
+        assert!(m.total_length() as u128 == sum);
+    }
+}
